@@ -15,10 +15,21 @@ from __future__ import annotations
 
 import json
 
-import c09
-from c09 import (run_impl, model_lines, parse_model, compare_frame, impl_fields, all_configs,
-                 check_lsa, check_argsort, argsort_order)
 from common import Check, run_check, run_driver
+
+c09 = None
+
+
+def _bind():
+    """`harness/c09.py` is imported inside `run_check` (an import/syntax error there is an infrastructure
+    error, exit 2, not a traceback with exit 1)."""
+    global c09, run_impl, model_lines, parse_model, compare_frame, impl_fields, all_configs
+    global check_lsa, check_argsort, argsort_order
+    import c09 as _c
+    c09 = _c
+    run_impl, model_lines, parse_model = _c.run_impl, _c.model_lines, _c.parse_model
+    compare_frame, impl_fields, all_configs = _c.compare_frame, _c.impl_fields, _c.all_configs
+    check_lsa, check_argsort, argsort_order = _c.check_lsa, _c.check_argsort, _c.argsort_order
 
 THEOREMS = [
     "SleapVerif.C10.identity_preserved_fw_greedy",
@@ -34,6 +45,20 @@ THEOREMS = [
     "SleapVerif.C10.identity_preserved_lq_greedy_iou",
     "SleapVerif.C10.identity_preserved_fw_greedy_euclid",
     "SleapVerif.C10.identity_preserved_lq_greedy_euclid",
+    "SleapVerif.C10.identity_preserved_fw_hungarian_iou",
+    "SleapVerif.C10.identity_preserved_lq_hungarian_iou",
+    "SleapVerif.C10.identity_preserved_fw_hungarian_euclid",
+    "SleapVerif.C10.identity_preserved_lq_hungarian_euclid",
+    "SleapVerif.C10.oks_zero_area_counterexample",
+    "SleapVerif.C10.Witness.extOk",
+    "SleapVerif.C10.Witness.sorted",
+    "SleapVerif.C10.Witness.inClass",
+    "SleapVerif.C10.Witness.endToEnd",
+    "SleapVerif.C10.Witness.extH_ok",
+    "SleapVerif.C10.Witness.extH_optimal",
+    "SleapVerif.C10.Witness.solver_contracts_satisfiable",
+    "SleapVerif.C10.Witness.inClassH",
+    "SleapVerif.C10.Witness.endToEndHungarian",
     "SleapVerif.C10.iou_range",
     "SleapVerif.C10.iou_symm",
     "SleapVerif.C10.iou_self_is_one_degenerate",
@@ -156,8 +181,7 @@ def gen_degenerate(rng, cfg=None):
     has zero width or height (collinear keypoints with identical x or y) or is a single point (one
     visible keypoint).  Thin animals only move along their long axis (a 1-px-thick box must keep
     overlapping itself), single-keypoint animals by at most 1/16 px per frame; everybody ≥ 60 px apart."""
-    iou = [c for c in all_configs() if c["scoring_method"] == "iou"]
-    cfg = dict(cfg or rng.choice(iou))
+    cfg = dict(cfg or rng.choice(all_configs()))
     W = rng.choice([1, 2, 3, 5])
     cfg["window_size"] = W
     cfg["instance_score_threshold"] = rng.choice([0.0, 0.5])
@@ -207,7 +231,8 @@ def gen_degenerate(rng, cfg=None):
             for a in newcomers:
                 known.add(a)
                 absent[a] = 0
-    return {"cfg": cfg, "frames": frames, "family": "degenerate_iou"}
+    return {"cfg": cfg, "frames": frames, "family": "degenerate_" + {"iou": "iou", "oks": "oks"}.get(
+        cfg["scoring_method"], "euclid")}
 
 
 def gen_circle(rng, cfg=None, laps_frames=100):
@@ -338,6 +363,12 @@ def check_hypotheses(chk, case, frames):
                                      cmc.tolist(), "ArgsortSorted")
                         return False, min_margin
                     chk.tag("argsort_sorted_validated")
+        # class condition: a newcomer only appears while every known animal is detected
+        here = {d[3] for d in dets}
+        if any(a not in track_of for a in here) and not set(track_of) <= here:
+            chk.disagree("C10 scene left the class: a newcomer appears while a known animal is absent",
+                         {"case": case, "frame": f}, sorted(here), sorted(track_of))
+            return False, min_margin
         # update ground truth map from what the implementation returned
         got = dict(fr["out"])
         for i, d in enumerate(dets):
@@ -377,12 +408,38 @@ def purity_ok(case, frames):
     return True
 
 
+def zero_area(pts):
+    vis = [(x, y) for x, y in pts if x == x and y == y]
+    return bool(vis) and (len({x for x, _ in vis}) == 1 or len({y for _, y in vis}) == 1)
+
+
+def c10_signatures(case, frames, bad):
+    """Effect-based signature of F-C10c: at the failing frame a detection with a zero-area pose (visible
+    keypoints share an x or a y) scores exactly 0 against every stored feature of its own animal."""
+    sigs = list(c09.signatures(case, frames, c09.oracle(case, frames)))
+    if not bad or case["cfg"]["scoring_method"] != "oks":
+        return sigs
+    f = bad[0][0]
+    if f >= len(frames) or frames[f]["res"] != "ok":
+        return sigs
+    dets = case["frames"][f]
+    for i, (pts, _) in enumerate(frames[f].get("feats", [])):
+        if not zero_area(pts):
+            continue
+        own = [v for a, b, v in frames[f]["table"]
+               if a is not None and b is not None and a[1] == i and case["frames"][b[0]][b[1]][3] == dets[i][3]]
+        if own and all(v == 0.0 for v in own):
+            sigs.append("oks_zero_area_pose")
+            break
+    return sigs
+
+
 def shrink_scene(case, fail_frame, sigs):
     """Stay inside the scene class: cut the history after the failing frame, then drop whole animals
     (never a middle frame: that would lengthen a jump / an absence)."""
     def fails(c):
         fr = run_impl(c)
-        return bool(oracle(c, fr)) and c09.signatures(c, fr, c09.oracle(c, fr)) == sigs
+        return bool(oracle(c, fr)) and c10_signatures(c, fr, oracle(c, fr)) == sigs
     cur = dict(case, frames=case["frames"][:fail_frame + 1])
     if not fails(cur):
         return case
@@ -399,11 +456,25 @@ def scene_key(case):
 
 
 def main(chk):
+    _bind()
     chk.build_and_audit()
     c09.setup()
-    fixes = c09.replay_witnesses(chk, pid_map={"F-C09a": "F-C10a", "F-C09b": "F-C10b", "F-C09c": None})
+    fixes = c09.replay_witnesses(chk, pid_map={"F-C09a": "F-C10a", "F-C09b": "F-C10b", "F-C09c": None,
+                                                 "F-C09d": None})
+    for fid_, ok in zip(["F-C09a", "F-C09b", "F-C09c"], fixes):
+        if not ok:
+            # every C10 theorem is about `Fixes.repaired`: on this tree the repaired behaviour is REQUIRED
+            chk.fail(f"the tree exhibits the pinned (unrepaired) behaviour of {fid_}; the C10 theorems speak about "
+                     "the repaired step functions only", c09.WITNESS[fid_][0], "witness of " + fid_ + " fails", ())
     chk.extra["fixes_detected"] = dict(zip(["anyRow", "lqList", "stale"], fixes))
-    cases = []
+    ent = next((e for e in chk.known if e["id"] == "F-C10c"), None)
+    if ent is not None:
+        w = ent["witness"]
+        fr_w = run_impl(w)
+        bad_w = oracle(w, fr_w)
+        chk.known_replay("F-C10c", still_fails=bool(bad_w) and "oks_zero_area_pose" in c10_signatures(w, fr_w, bad_w),
+                         detail=str(bad_w[:1]))
+    cases = list(c09.load_corpus("C10"))       # concrete scenes found for the seeded mutations run first
     for cfg in all_configs():
         cases.append(gen_scene(chk.rng, cfg=cfg))
     for _ in range(chk.n(400, 5000)):
@@ -413,10 +484,11 @@ def main(chk):
         cases.append(gen_fast_small(chk.rng, cfg=cfg))
     for _ in range(chk.n(100, 1200)):
         cases.append(gen_fast_small(chk.rng))
-    # degenerate boxes (seeded C10-r2m1): every iou configuration once, then random
-    for cfg in [c for c in all_configs() if c["scoring_method"] == "iou"]:
+    # degenerate poses (zero-width / zero-height / single-point box): every configuration once, then
+    # random.  iou: seeded C10-r2m1; oks: F-C10c (compute_oks scales by the pose's bounding-box area = 0)
+    for cfg in all_configs():
         cases.append(gen_degenerate(chk.rng, cfg=cfg))
-    for _ in range(chk.n(60, 800)):
+    for _ in range(chk.n(70, 900)):
         cases.append(gen_degenerate(chk.rng))
     # long revisiting trajectories (seeded C10-r2m3): local_queues + mean in every matcher / feature
     # combination, plus a few random configurations
@@ -464,9 +536,13 @@ def main(chk):
                 break
         bad = oracle(case, frames)
         if bad:
-            sigs = c09.signatures(case, frames, c09.oracle(case, frames))
+            sigs = c10_signatures(case, frames, bad)
             small = shrink_scene(case, bad[0][0], sigs) if len(chk.failing) < 4 else case
             chk.fail(f"C10 fails at frame {bad[0][0]}: {bad[0][1]}", small, bad[:3], sigs)
+        elif case["cfg"]["scoring_method"] == "oks" and case.get("family") == "degenerate_oks":
+            # F-C10c region: zero-area poses make every OKS 0 (ties); the scene passed the oracle only because
+            # the listing order happened to agree — the float scores do not satisfy the theorems' hypotheses
+            chk.tag("oks_zero_area_passed_by_listing_order")
         else:
             ok, mg = check_hypotheses(chk, case, frames)
             if ok:
